@@ -37,8 +37,39 @@ fn rule_status(ctx: &Ctx, out: &mut Vec<Violation>) {
     }
 }
 
+/// C10.residue: a CreateSubscription that failed (whatever the status) leaves nothing behind. Judged
+/// at audits for names that no create ever created successfully and no create was abandoned on.
+/// C17.registry: the push registry only holds subscriptions that exist with a push endpoint.
+fn rule_residue(ctx: &Ctx, out: &mut Vec<Violation>) {
+    let m = ctx.m;
+    for c in m.calls.values().filter(|c| c.client == 0) {
+        if let (Req::GetSub { sub }, Some(Outcome::Ok(_))) = (&c.req, &c.out) {
+            let creates = match m.sub_creates.get(sub) {
+                Some(cs) => cs,
+                None => continue,
+            };
+            let all_failed = creates.iter().all(|cc| matches!(m.calls[cc].out, Some(Outcome::Err(_, _))));
+            let all_done = creates.iter().all(|cc| m.calls[cc].ret_seq_or_max() < c.inv_seq);
+            if all_failed && all_done {
+                let codes: Vec<Code> = creates.iter().filter_map(|cc| m.calls[cc].code()).collect();
+                out.push(v("C10.residue", "failed_create_left_subscription", format!("every CreateSubscription of {} failed (codes {:?}), yet GetSubscription finds it at a later quiescent audit", sub, codes)));
+            }
+        }
+    }
+    for (seq, reg) in m.registries.iter() {
+        for name in reg.iter() {
+            let ok = m.sub_creates.get(name).map(|cs| cs.iter().any(|cc| m.calls[cc].maybe_effective() && matches!(&m.calls[cc].req, Req::CreateSub { push: Some(_), .. }))).unwrap_or(false);
+            let pending = m.sub_creates.get(name).map(|cs| cs.iter().any(|cc| m.calls[cc].effect_end_seq() > *seq && m.calls[cc].inv_seq < *seq)).unwrap_or(false);
+            if !ok && !pending {
+                out.push(v("C17.registry", "stale_push_registration", format!("the push registry holds {} at a quiescent point although no accepted create gave it a push endpoint", name)));
+            }
+        }
+    }
+}
+
 pub fn evaluate_more(ctx: &Ctx, out: &mut Vec<Violation>) {
     rule_status(ctx, out);
+    rule_residue(ctx, out);
     rule_c14(ctx, out);
     rule_c13(ctx, out);
     rule_c10(ctx, out);
@@ -143,11 +174,13 @@ fn rule_c14(ctx: &Ctx, out: &mut Vec<Violation>) {
     if let Some((fseq, ft)) = m.faults_off {
         let interval_us = ctx.plan.knobs.push_interval_ms as u64 * 1000;
         for name in m.sub_creates.keys() {
-            let inst = match m.unique_sub(name) {
+            // the current instance of the name (a name deleted and re-created counts from its last create)
+            let inst = match m.last_sub(name) {
                 Some(i) if i.push.is_some() => i,
                 _ => continue,
             };
-            if m.sub_delete_ever(name) || m.unique_topic(&inst.topic).is_none() {
+            let deleted_after = m.sub_deletes.get(name).map(|d| d.iter().any(|dc| m.calls[dc].inv_seq > m.calls[&inst.create_call].inv_seq)).unwrap_or(false);
+            if deleted_after || m.unique_topic(&inst.topic).is_none() {
                 continue;
             }
             // A deleted topic does not end the obligation for what the subscription already holds:
@@ -362,7 +395,10 @@ fn rule_c13(ctx: &Ctx, out: &mut Vec<Violation>) {
                         out.push(v("C13.walk", format!("duplicate:{kind_name}"), format!("{:?} walk of {}: {} listed twice", kind, parent, g)));
                     }
                     if !exp.certain.contains_key(g.as_str()) && !exp.uncertain.contains(g.as_str()) {
-                        out.push(v("C13.walk", format!("unexpected:{kind_name}"), format!("{:?} walk of {} (page_size {}): {} listed but it does not exist there", kind, parent, page_size, g)));
+                        // (a subscription whose create overlapped a delete of the same name: the known attach-after-detach defect)
+                        let racing = matches!(kind, ListKind::TopicSubs)
+                            && m.sub_creates.get(g.as_str()).map(|cs| cs.iter().any(|cc| m.sub_deletes.get(g.as_str()).map(|ds| ds.iter().any(|dc| m.calls[cc].inv_seq < m.calls[dc].ret_seq_or_max() && m.calls[dc].inv_seq < m.calls[cc].ret_seq_or_max())).unwrap_or(false))).unwrap_or(false);
+                        out.push(v("C13.walk", format!("unexpected:{kind_name}{}", if racing { ":create_overlaps_delete" } else { "" }), format!("{:?} walk of {} (page_size {}): {} listed but it does not exist there", kind, parent, page_size, g)));
                     }
                 }
                 for name in exp.certain.keys() {
